@@ -211,6 +211,18 @@ def run(ck):
         reqs.append(("export", "P " + f, f))
         export_env[len(reqs)] = env
         reqs.append(("exportv", "V %s;%s" % (L.bind_str(env), f), f))
+    # `**` exponents with constant leaves whose value depends on variables (a conditional is constant iff its
+    # condition and both branches are): at points on both sides of the condition, away from the all-zero
+    # point where the analysis evaluates constant exponents; every route (getValue, resolveDependencies,
+    # copy, getCxxFormula evaluated as C++, model)
+    for f in ["x**(y>0 ? 2 : 3)", "2**(x<1 ? y : 3)", "x**(H(y)+1)", "x**max(y,2)", "x**(y<=0 ? 2 : 3)", "x**(y==0 ? 1 : 2)",
+              "x**(y>1 && z>1 ? 2 : 3)", "x**(!y>1 ? 2 : 3)", "x**-(y>0 ? 2 : 3)", "(x+1)**(y>0 ? 0.5 : 1.5)*z",
+              "x**(2>1 ? 2 : 3)", "x**min(3,y)", "x**(H(y-1)*2)", "z*x**(y>=2 ? 4 : -1)+y"]:
+        for env in ({"x": 1.5, "y": 2.5, "z": 3.0}, {"x": 1.5, "y": -2.5, "z": 3.0}, {"x": 0.75, "y": 0.5, "z": -1.0}):
+            reqs.append(("export", "P " + f, f))
+            export_env[len(reqs)] = env
+            reqs.append(("exportv", "V %s;%s" % (L.bind_str(env), f), f))
+            reqs.append(("directed", "V %s;%s" % (L.bind_str(env), f), f))
     gq = L.Gen(rng, tab)
     for _ in range(n_q):
         f = gq.formula(4)
